@@ -179,6 +179,8 @@ class Interp(HeapMixin, OpsMixin, StmtMixin, CallMixin):
                 if ty[1][0] in ("int", "real", "bool", "str", "enum", "any", "datetime", "timedelta"):
                     r.arr = z3.Array(name + "#arr", z3.IntSort(), self.sort_of(ty[1]))
                     r.mem = z3.Array(name + "#mem", self.sort_of(ty[1]), z3.BoolSort())
+                elif ty[1][0] == "tuple" and all(t_[0] in ("int", "real", "bool", "str", "enum") for t_ in ty[1][1:]):
+                    r.mem = z3.Array(name + "#mem", AnySort, z3.BoolSort())      # tuples of scalars: membership over the injected tuple
                 if ty[1][0] == "obj" and self.contract is not None:
                     for cn in self.contract.counters.get(ty[1][1], {}):
                         c = z3.Int(f"{name}#count:{cn}")
